@@ -272,6 +272,7 @@ class Ctx:
         if self.notes:
             cov["notes"] = self.notes
         cov.update(self.extra)
+        cov["coverage_floors"] = [{"counter": n, "minimum": m, "observed": self.counters.get(n, 0)} for n, m in self.floors]
         cov["known_findings_seen"] = [{"key": v["key"], "count": n} for _fi, v, n in known]
         cov["inconclusive"] = [str(x)[:300] for x in self.inconclusive[:10]]
         ev = {"property_id": self.prop, "tier": self.tier, "seed": int(self.seed), "level": self.level,
